@@ -285,6 +285,38 @@ const BOTH_STUB: &[&str] = &[
 ];
 const NT: &str = "non-trivial = at least one fault or rare-condition probe fired in the run; distinct = distinct interleaving signature (hash of the (task, event kind, result kind) sequence)";
 
+/// Known finding D10. tokio_util's `DelayQueue` accepts a timer only if it lies less than 2^36 ms
+/// after the point its wheel last advanced to, and the wheel advances only when one of its timers
+/// fires. Both in-flight tables arm at most 365 days at a time, so a request that arrives when
+/// nothing has fired on the connection's queue for more than 2^36 ms - min(365 d, its timeout)
+/// panics ('invalid deadline'). `armed` lists every request the endpoint tracked as (armed at,
+/// deadline, no longer tracked from); returns whether the requests armed at `t` meet exactly that
+/// condition, from the fire times the armed requests imply (365-day re-arms, then the deadline).
+pub fn timer_queue_stale(armed: &[(i64, i64, i64)], t: i64) -> bool {
+    const SPAN: i64 = 365 * 86_400_000;
+    const RANGE: i64 = (1i64 << 36) - 1;
+    let mut last_fire = 0i64; // the queue is created with the endpoint, at t=0
+    for &(a, d, end) in armed {
+        if a >= t {
+            continue;
+        }
+        let mut f = a;
+        loop {
+            let next = f.saturating_add(SPAN).min(d.max(a));
+            if next <= f || next > t || next > end {
+                break;
+            }
+            f = next;
+            last_fire = last_fire.max(f);
+        }
+    }
+    let new_span = armed.iter().filter(|x| x.0 == t).map(|&(a, d, _)| (d - a).clamp(0, SPAN)).min();
+    match new_span {
+        Some(sp) => (t - last_fire).saturating_add(sp) > RANGE,
+        None => false,
+    }
+}
+
 pub fn checks() -> Vec<CheckSpec> {
     let q = 1_200_000;
     let t = 40_000_000;
